@@ -134,8 +134,13 @@ Definition sign_run (accounts : list bytes) (raws : list bytes) (a : bytes) (t :
   else Err ESign.
 
 (* a wallet that always signs for a held address (with bytes that mean nothing): used only to COUNT
-   the raw-transaction frames the request demands of a working wallet — the key directory of the
-   harness holds a valid key for every account *)
+   the raw-transaction frames the request demands of a working wallet.  [accounts] here is the list
+   of SIGNABLE addresses: those for which the key directory holds a decryptable key file, under the
+   address's own name, whose key owns that address.  The directory of the harness also lists
+   addresses (returned by eth_accounts) whose file holds another address's key, has a wrong / missing
+   password file, is not a key file or has been deleted: for those the wallet must fail (C08), so
+   nothing may be submitted — whatever was asked of the same process before (round 3: state kept
+   across requests, e.g. a signer cache filled before the address check). *)
 Definition sign_dummy (accounts : list bytes) (a : bytes) (t : transaction) (chain : Z) : res bytes :=
   if existsb (bytes_eqb a) accounts then Ok [] else Err ESign.
 
@@ -301,10 +306,11 @@ Inductive case :=
 (* process start: configured chain id (< 0: discover), backend table, did the process come up?, frames seen *)
 | CStart (configured : Z) (tbl : list (dframe * dreply)) (started : bool) (frames : list dframe)
 (* one POST: configured chain id, the backend's answers while the process started (the net_version
-   entry when discovered), the backend table of this case, the wallet's addresses, the leading bytes of the body (through the first non-space byte), the tree the
+   entry when discovered), the backend table of this case, the wallet's addresses (eth_accounts, listing order), the
+   signable addresses among them (see [sign_dummy]), the leading bytes of the body (through the first non-space byte), the tree the
    body denotes (None: not JSON), the forced completion order, and what was observed: status (0 = no
    HTTP reply), reply tree (None = not JSON / none), frames in arrival order *)
-| CReq (configured : Z) (stbl : list (dframe * dreply)) (tbl : list (dframe * dreply)) (accounts : list bdsl) (body_prefix : bdsl)
+| CReq (configured : Z) (stbl : list (dframe * dreply)) (tbl : list (dframe * dreply)) (accounts : list bdsl) (signable : list bdsl) (body_prefix : bdsl)
        (tree : option djson) (order : list nat)
        (status : N) (reply : option djson) (frames : list dframe).
 
@@ -323,10 +329,11 @@ Definition check_case (c : case) : N :=
            | Err _, false => 0
            | _, _ => 7
            end
-  | CReq configured stbl tbl accts prefix tree order status reply frames =>
+  | CReq configured stbl tbl accts sgn prefix tree order status reply frames =>
       let stb := map (fun e => (fx (fst e), rx (snd e))) stbl in
       let tb := map (fun e => (fx (fst e), rx (snd e))) tbl in
       let accounts := map bexpand accts in
+      let signable := map bexpand sgn in
       let obs := map fx frames in
       let req := option_map jx tree in
       let rep := option_map jx reply in
@@ -347,13 +354,13 @@ Definition check_case (c : case) : N :=
           else if match req with Some q => negb (passthrough_oracle q obs) | None => false end then 12
           else if match req, rep with Some q, Some p => negb (accounts_oracle accounts q p) | _, _ => false end then 13
           else
-          if match rpcHandler parse_int_run (fun _ => req) accounts (sign_dummy accounts)
+          if match rpcHandler parse_int_run (fun _ => req) accounts (sign_dummy signable)
                              (backend_table tb) chain (bexpand prefix) order with
              | Ok (_, _, traces) => negb (count_raw (concat traces) =? count_raw obs)%nat
              | _ => false
              end then 10          (* a raw transaction was submitted that must not be, or one is missing *)
           else
-          match rpcHandler parse_int_run (fun _ => req) accounts (sign_run accounts (raws_of obs))
+          match rpcHandler parse_int_run (fun _ => req) accounts (sign_run signable (raws_of obs))
                            (backend_table tb) chain (bexpand prefix) order with
           | Ok (st, body, traces) =>
               let sent := concat traces in
@@ -383,15 +390,16 @@ Definition mismatches (l : list case) : list (N * N) := firstn 20 (mismatches_go
 Definition diag (c : case) : N * list nat :=
   match c with
   | CStart _ _ _ _ => (0%N, [])
-  | CReq configured stbl tbl accts prefix tree order status reply frames =>
+  | CReq configured stbl tbl accts sgn prefix tree order status reply frames =>
       let stb := map (fun e => (fx (fst e), rx (snd e))) stbl in
       let tb := map (fun e => (fx (fst e), rx (snd e))) tbl in
       let accounts := map bexpand accts in
+      let signable := map bexpand sgn in
       let obs := map fx frames in
       let req := option_map jx tree in
       match fst (Start parse_int_run (backend_table stb) configured) with
       | Ok chain =>
-          match rpcHandler parse_int_run (fun _ => req) accounts (sign_run accounts (raws_of obs))
+          match rpcHandler parse_int_run (fun _ => req) accounts (sign_run signable (raws_of obs))
                            (backend_table tb) chain (bexpand prefix) order, option_map jx reply with
           | Ok (st, JArr ms, _), Some (JArr os) =>
               (st, flat_map (fun p => if tree_match (fst (snd p)) (snd (snd p)) then [] else [fst p])
